@@ -56,6 +56,7 @@ inductive HOp where
   | cfg                                 -- dump of the configuration record and of which policies are present
   | xferto (src : Val)
   | xfer (dest : Val)
+  | xferself                            -- s.Transfer(s): source and destination are one instance (capped stacks only)
   | q (kind : String) (arg : Val)      -- a query / whole-tree call that must return normally and leave the list alone
   | bad
 
@@ -86,6 +87,7 @@ def parseHOp (ts : List String) : HOp :=
   | "marshal" :: rest => .marshal (parseVal rest).1
   | "xferto" :: rest => .xferto (parseVal rest).1
   | "xfer" :: rest => .xfer (parseVal rest).1
+  | ["xferself"] => .xferself
   | "q" :: kind :: rest => .q kind (match rest with | [] => .nil | _ => (parseVal rest).1)
   | _ => .bad
 
@@ -135,6 +137,9 @@ partial def histModel (s : Stk) (ops : List HOp) (acc : List String) : List Stri
           histModel s' rest (s!"{b01 ok} src\{{obsModel sv}} {obsModel s'}" :: acc)
         | _ => ("BADOP" :: acc).reverse
       | _ => ("BADOP" :: acc).reverse
+    | .xferself =>
+      let (s', ok) := s.transferSelf
+      histModel s' rest (s!"{b01 ok} {obsModel s'}" :: acc)
     | .xfer dest =>
       let (d', ok) := s.Transfer interp dest
       let d := match d' with
@@ -218,6 +223,16 @@ partial def histSpec (st : SpecSt) (ops : List HOp) (acc : List String) : List S
         let (st', ok) := if st.c.ronly then (st, false) else specTransfer xs st
         histSpec st' rest (s!"{b01 ok} src\{{obsSpec sv}} {obsSpec st'}" :: acc)
       | _ => ("BADOP" :: acc).reverse
+    | .xferself =>
+      -- the library's behaviour for the degenerate case (one instance on both sides); what the property asks of it is `Len ≤ k`
+      let n := st.l.length
+      let (st', ok) : SpecSt × Bool := match st.c.cap with
+        | none => (st, false)
+        | some k =>
+          if st.c.ronly || n > k - n then (st, false)
+          else if n == 0 then (st, true)
+          else ({ st with l := (List.range k).map (fun j => st.l.getD (j % n) .nil) }, false)
+      histSpec st' rest (s!"{b01 ok} {obsSpec st'}" :: acc)
     | .xfer dest =>
       let (d, ok) : String × Bool := match dest with
         | .stk _ c xs =>
@@ -269,6 +284,10 @@ partial def histInScope (st : SpecSt) (ops : List HOp) : Bool :=
           | .stk _ _ xs => if st.c.ronly then st else (specTransfer xs st).1
           | _ => st, true)
       | .xfer _ => (st, true)
+      | .xferself => (match st.c.cap with
+          | some k => if st.c.ronly || st.l.length > k - st.l.length || st.l.length == 0 then st
+                      else { st with l := (List.range k).map (fun j => st.l.getD (j % st.l.length) .nil) }
+          | none => st, true)
       | .q _ _ => (st, true)
       | .bad => (st, false)
     ok && histInScope st' rest
